@@ -136,9 +136,9 @@ impl Gen {
                         out.push(Repeat(b(c.clone()), lo, hi, m));
                     }
                 }
-                // `(?(1))` with both branches empty IS the group-exists test in this crate, which
-                // the atom GroupExists(1) already covers; an always-true conditional has no spelling
-                if self.cond && c != Empty {
+                // `(?(1))` alone is the group-exists test (atom GroupExists(1)); a conditional whose
+                // branches are both empty is written `(?(1)|)` and always succeeds
+                if self.cond {
                     out.push(CondGroup(1, b(c.clone()), b(Empty)));
                 }
                 if self.common {
@@ -172,7 +172,7 @@ impl Gen {
                             }
                             out.push(Alt(v));
                         }
-                        if self.cond && !(*a == Empty && *bb == Empty) {
+                        if self.cond {
                             out.push(CondGroup(1, b(a.clone()), b(bb.clone())));
                             if *a != Empty && !matches!(a, Backref(_)) {
                                 out.push(CondExpr(b(a.clone()), b(bb.clone()), b(Empty)));
